@@ -26,7 +26,7 @@ LEVEL = {
  "C03": ("bounded model checking of the places where a result is taken from hash-map iteration order (list max/min/ordering/value lookup): same result for every insertion order and every tie pattern among symbolic item values, under the documented map model", "3/C03"),
  "C04": ("bounded model checking of NativeFunctionCall::call for every operator x scalar operand shape with fully symbolic operand values: never panics (all Rust arithmetic/unwrap/index checks on), faults are Err; interpreter-level panics are outside", "3/C04"),
  "C07": ("bounded model checking of the runtime evaluator against an independent reference evaluator: type and value of every native operator on Bool/Int/Float operands (all values), list algebra on small lists under the map model", "3/C07"),
- "C14": ("bounded model checking of the streaming tokenizer's number conversions and a differential check that both loaders build the same object from the same leaf token (every int, finite float, bool; "^x"/"^xy" text tokens; the kind of object for every other 1- and 2-byte ASCII string token); string escapes, longer tokens and all structure are outside (reduced claim, DESIGN 3/C14)", "3/C14"),
+ "C14": ("bounded model checking of the streaming tokenizer's number conversions and a differential check that both loaders build the same object from the same leaf token (every int, finite float, bool; caret-prefixed text tokens of 1-2 characters; the kind of object for every other 1- and 2-byte ASCII string token); string escapes, longer tokens and all structure are outside (reduced claim, DESIGN 3/C14)", "3/C14"),
  "C15": ("bounded model checking of the loader: every leaf token (null, bool, any i64/u64/f64 number, ASCII strings of length <= 2, short token lists) and one-object tokens {K: v} for every key the loader probes with right- and wrong-typed values (serde_json::Map insert/get stubbed): Ok or Err, never a panic; tokens whose handling iterates a JSON object, whole documents and the streaming loader are outside; 39 harnesses are bug-hunting only (no claim on time-out)", "3/C15"),
  "C20": ("bounded model checking of the CLI's JSON string escaping: every ASCII character (which includes every character JSON requires to be escaped) as a one-character input, against RFC 8259's definition of a string body; non-ASCII and longer inputs are outside", "3/C20"),
 }
